@@ -1407,10 +1407,36 @@ func (e *BigMessage) ReadAll() ([]byte, error) {
 	}
 	e.Client.bigMessage = nil
 
+	c := e.Client
+	if c.PauseTimeout != 0 {
+		// Abandon timer to prevent waking up the system for no good reason.
+		defer c.readConn.SetReadDeadline(time.Time{})
+	}
+
 	message := make([]byte, e.Size)
-	_, err := io.ReadFull(e.Client.bufr, message)
-	if err != nil {
-		return nil, err
+	for done := 0; done < len(message); {
+		if c.PauseTimeout != 0 {
+			err := c.readConn.SetReadDeadline(time.Now().Add(c.PauseTimeout))
+			if err != nil {
+				c.readConn.Close()
+				return nil, err // deemed critical
+			}
+		}
+
+		n, err := io.ReadFull(c.bufr, message[done:])
+		done += n
+		if err != nil {
+			// Allow deadline expiry if at least one byte was transferred.
+			var ne net.Error
+			if n != 0 && errors.As(err, &ne) && ne.Timeout() {
+				continue
+			}
+
+			// The position in the stream is lost.
+			// ReadSlices reconnects when closed.
+			c.readConn.Close()
+			return nil, err
+		}
 	}
 	return message, nil
 }
